@@ -3,7 +3,7 @@ CONSTANTS
   NClasses = 3
   NInsts = 2
   Bodies = {}
-  Cfgs = {"pmax", "pval"}
+  Cfgs = {"pmaxK", "pvalmm"}
   Muts = {"setmax"}
   DescIds = {"d"}
   MaxBases = 2
